@@ -408,6 +408,11 @@ def St.tagVals (U : Univ) (st : St) (m : String) (keys : List String) (p : Pred)
     List (String × List String) :=
   tagValsOf U ((st.search U (guarded "tagvalues") m p).map (·.kid)) keys
 
+/-- SHOW TAG VALUES CARDINALITY: the number of distinct values `SearchTagValues` returns for the
+keys (`EngineImpl.TagValuesCardinality` unions them per measurement). -/
+def St.tagValCard (U : Univ) (st : St) (m : String) (keys : List String) (p : Pred) : Nat :=
+  (sortDistinct ((st.tagVals U m keys p).flatMap (·.2))).length
+
 /-- SHOW SERIES CARDINALITY FROM m [WHERE p]: without a condition the count of the measurement's
 tsids (`seriesCount`), with one the length of a search. -/
 def St.card (U : Univ) (st : St) (m : String) (p : Option Pred) : Nat :=
